@@ -243,6 +243,15 @@ func init() {
 		Assumptions: []string{seqAssumption},
 		Cases:       func(t string) int { return tierN(t, 1200, 543*3+30000) },
 		RunCase: func(c *CaseCtx) *CaseResult {
+			if c.Idx < tierN(c.Tier, 1, 8) {
+				// the task graph of a definition that arrives through the REAL reload path of the binary (SIGUSR1) is the one
+				// jobs accepted afterwards are built from - also when the edit goes back to the content of process start
+				bin := os.Getenv("PRUNNER_BIN")
+				if bin == "" {
+					return &CaseResult{Idx: c.Idx, Inconclusive: "PRUNNER_BIN not set (bin/check builds cmd/prunner from /repo)"}
+				}
+				return simpleCase(c, drv.RunReloadBinaryCase(c.Seed+int64(c.Idx), bin, c.TmpDir), 1)
+			}
 			if c.Idx%40 == 39 {
 				// the same claims with the REAL task runner and real exit statuses (the monitored runner's conventions are
 				// the harness's own): failing commands, dependents, allow_failure
